@@ -726,6 +726,91 @@ def check_cm_program(case):
     return None
 
 
+def suppress_cases():
+    out = []
+    for kind in ("push-async", "push-sync", "acm", "contextmanager"):
+        for exc in ("asyncio.CancelledError", "Cancel", "KeyboardInterrupt", "ValueError"):
+            for depth in (1, 2):
+                out.append({"kind": kind, "exc": exc, "depth": depth})
+    return out
+
+
+def check_suppressed_cancellation(case):
+    """an exit (of an ExitStack, of a generator-based manager) swallows what leaves the block - asyncio's own
+    CancelledError included.  Whether that is wise is the user's business; the library hands the exception to the exit
+    and takes its answer, and that is all: it does not consult or adjust any event loop's bookkeeping about it."""
+    import asyncio
+    import asyncstdlib as a
+
+    record = []
+    exc = {"asyncio.CancelledError": asyncio.CancelledError, "Cancel": Cancel, "KeyboardInterrupt": KeyboardInterrupt,
+           "ValueError": ValueError}[case["exc"]]("leaves the block")
+    seen = []
+
+    async def aexit(et, ev, tb):
+        seen.append(ev)
+        return True
+
+    def sexit(et, ev, tb):
+        seen.append(ev)
+        return True
+
+    class Manager:
+        async def __aenter__(self):
+            return self
+
+        __aexit__ = staticmethod(aexit)
+
+    @a.contextmanager
+    async def swallowing():
+        try:
+            yield
+        except BaseException as err:  # noqa: B902
+            seen.append(err)
+
+    async def program():
+        if case["kind"] == "contextmanager":
+            async with swallowing():
+                raise exc
+            return "suppressed"
+        async with a.ExitStack() as stack:
+            for _ in range(case["depth"]):
+                if case["kind"] == "push-async":
+                    stack.push(aexit)
+                elif case["kind"] == "push-sync":
+                    stack.push(sexit)
+                else:
+                    await stack.enter_context(Manager())
+            raise exc
+        return "suppressed"
+
+    def driven():
+        ctx = Ctx("a")
+        return run(ctx, program())
+
+    undo = install_traps(record)
+    try:
+        outcome = driven()
+    finally:
+        undo()
+    if record:
+        raise Violation("C17/suppressed-cancellation/asyncio-loop-access", f"{case}: {record[:3]}")
+    if outcome != ("return", "suppressed") or seen[:1] != [exc]:
+        raise Violation("C17/suppressed-cancellation/outcome", f"{case}: {outcome!r} seen={seen!r}")
+    # ... and the same while a real asyncio loop is running: the current task's cancellation state is not touched
+    def under_loop():
+        task = asyncio.current_task()
+        before = task.cancelling()
+        seen.clear()
+        out = driven()
+        return out, before, task.cancelling()
+
+    out, before, after = under_asyncio(under_loop)
+    if out != ("return", "suppressed") or before != after:
+        raise Violation("C17/suppressed-cancellation/task-state-changed", f"{case}: {out!r} cancelling {before} -> {after}")
+    return None
+
+
 def cm_programs():
     from . import c13
 
@@ -780,6 +865,8 @@ def shards(tier):
                      thorough_mult=10))
     out.append(Shard("sync-under-asyncio", looped(c19.check_sync),
                      strategy=c19.sync_cases(), n=300, nontrivial=lambda c: len(set(c["calls"])) >= 2, thorough_mult=10))
+    out.append(Shard("suppressed-cancellation", check_suppressed_cancellation, cases=suppress_cases,
+                     nontrivial=lambda c: c["exc"] != "ValueError", exhaustive=True))
     out.append(Shard("contextmanager-programs", check_cm_program, cases=cm_programs,
                      nontrivial=lambda c: c["handler"] != "none", exhaustive=True))
     out.append(Shard("sync-adapters", check_adapter, cases=lambda: [{"adapter": k} for k in _adapters()],
